@@ -25,6 +25,7 @@ TAssign ==
   /\ Chk("StatementOrder", Ev.i = pos - 1)
   /\ Chk("OnlyTargetsOverridden", Ev.overridden = Overridden(R, Mods, pos))
   /\ Chk("OverrideValueIsTheKeys", Ev.overridden => Ev.modkey = EffIdx(R, pos))
+  /\ Chk("OverrideIsUnguarded", Ev.overridden => (~Ev.guard.has_lo /\ ~Ev.guard.has_hi))   \* the given value IS the coefficient, at every temperature
   /\ Chk("GuardMeansWindow", ~Ev.overridden => \A t \in Probes(R[pos]) : ObsActive(Ev.guard, t) = Active(R[pos].tmin, R[pos].tmax, t))
   /\ Assign
 
